@@ -4,7 +4,7 @@ import gens, blk, compcases as cc
 from capi import Lib, Buf
 from ctypes import c_int, byref
 
-THEOREMS = ["C06_fast_generic_strict", "C06_fast_extState_strict", "C06_fastReset_history_strict"]
+THEOREMS = ["C06_fast_generic_strict", "C06_fast_extState_strict", "C06_fastReset_history_strict", "C06_destSize_strict"]
 CORRESPONDENCE = ["Model.FastApi one-shot entry points == liblz4 (bytes, return value, context) on the same cases"]
 RULE = ("every successful output of {default, fast, extState, fastReset history, destSize, HC one-shot levels 1..12 (+favorDecSpeed), HC destSize, "
         "fast_continue and HC_continue on contiguous streams (history = previous blocks)} x capacity {bound, bound-1, n, n/2, random} is given to the decoder "
